@@ -295,7 +295,7 @@ fn scenario_two_opens<S: BitmapSlice + Send + Sync>(fs: &mut PassthroughFs<S>, c
             let f = fs.get_data(ha, i1, 0);
             assert(f is Err); // [C15.scenario.dead_after_release]
             let r2 = fs.release(ctx, i2, 0, hb, false, false, None);
-            assert(r2 is Ok);
+            assert(r2 is Ok); // [C15.scenario.release_ok]
             // "once the client has released every handle ... no more handles or directory-position records" than before
             assert(fs.handle_map@ =~= before); // [C15.scenario.all_released]
             assert(fs.handle_map.cookies_view() =~= before_c); // [C15.scenario.all_released_cookies]
@@ -310,15 +310,22 @@ fn scenario_dir<S: BitmapSlice + Send + Sync>(fs: &mut PassthroughFs<S>, ctx: &C
     let ghost before_c = fs.handle_map.cookies_view();
     let a = fs.opendir(ctx, i, 0);
     if let Ok((Some(h), _)) = a {
-        assert(!before_c.contains_key(h));
+        assert(!before_c.contains_key(h)); // [C15.scenario.fresh_handle_has_no_record]
         fs.cache_cookie(h, buf);
         let hit = fs.consume_cached_cookie(h, off);
         fs.cache_cookie(h, buf);
         let r = fs.releasedir(ctx, i, 0, h);
-        assert(r is Ok);
+        assert(r is Ok); // [C15.scenario.dir_release_ok]
         assert(fs.handle_map@ =~= before); // [C15.scenario.dir_released]
         assert(fs.handle_map.cookies_view() =~= before_c); // [C15.scenario.dir_cookie_released]
     }
+}
+// a freshly started server (PassthroughFs::new initialises `handle_map: HandleMap::new(), next_handle: AtomicU64::new(1)`) satisfies the invariant
+fn scenario_fresh_server() {
+    let m = HandleMap::new();
+    let c = AtomicU64::new(1);
+    assert(m.wf() && (forall|h: Handle| #[trigger] m@.contains_key(h) ==> h < c.v)); // [C15.scenario.fresh_server_inv]
+    assert(m@.dom() =~= Set::<Handle>::empty() && m.cookies_view().dom() =~= Set::<Handle>::empty()); // [C15.scenario.fresh_server_empty]
 }
 // destroy: a later session starts from an empty table and cannot use a handle of the previous one
 fn scenario_destroy<S: BitmapSlice + Send + Sync>(fs: &mut PassthroughFs<S>, h: Handle, i: Inode)
@@ -329,6 +336,80 @@ fn scenario_destroy<S: BitmapSlice + Send + Sync>(fs: &mut PassthroughFs<S>, h: 
     assert(d is Err); // [C15.scenario.destroy_kills_handles]
 }
 """
+
+
+# ---------------------------------------------------------------------------------------------------------------------
+# Closed set of writers (syntactic frame check).  The invariant `handles_inv` and the per-function frames speak about the
+# functions under contract; that NO OTHER code of the crate writes the handle table, the position records or the counter is
+# checked on the text: every use of `handle_map.<mutator>`, `next_handle`, `handles.write()`, `cookies.lock()` in the compiled,
+# non-test code under src/passthrough must lie inside a function under contract (or be the field declaration / initialiser).
+WRITER_RX = re.compile(r'\bhandle_map\s*\.\s*(insert|release|clear|set_cookie|remove_cookie)\b|\bnext_handle\b|\bhandles\s*\.\s*write\b|\bcookies\s*\.\s*lock\b|\bHandleMap\s*::\s*new\b')
+INIT_OK = ('handle_map: HandleMap::new(),', 'next_handle: AtomicU64::new(1),', 'next_handle: AtomicU64,', 'handle_map: HandleMap,')
+
+
+def _fn_ranges(msk):
+    out = []
+    for m in re.finditer(r'\bfn\s+(\w+)', msk):
+        k, d = m.end(), 0
+        while k < len(msk):
+            c = msk[k]
+            if c in '([':
+                d += 1
+            elif c in ')]':
+                d -= 1
+            elif c == '{' and d == 0:
+                break
+            elif c == ';' and d == 0:
+                k = -1
+                break
+            k += 1
+        if k < 0 or k >= len(msk):
+            continue
+        out.append((m.group(1), k, X.match_close(msk, k)))
+    return out
+
+
+def writers_scan(root, covered):
+    """covered: set of (file, fn name).  Returns the list of offending sites (strings)."""
+    base = os.path.join(root, 'src/passthrough')
+    modsrc = X.Source(root, PT)
+    disabled = set()
+    for m in re.finditer(r'(?m)^\s*(?:pub(?:\([a-z]+\))?\s+)?mod\s+(\w+)\s*;', modsrc.msk):
+        _, attrs = X.leading_attrs(modsrc.src, modsrc.msk, m.start())
+        if not X.attrs_enabled(attrs):
+            disabled.add(m.group(1))
+    bad = []
+    for dp, dn, fns in os.walk(base):
+        for fn_ in sorted(fns):
+            if not fn_.endswith('.rs'):
+                continue
+            rel = os.path.relpath(os.path.join(dp, fn_), root)
+            top = os.path.relpath(os.path.join(dp, fn_), base).split(os.sep)[0]
+            if top[:-3] in disabled or top in disabled:
+                continue
+            src = X.Source(root, rel)
+            msk = src.msk
+            # cfg-disabled blocks (test modules) are blanked
+            dead = []
+            for m in re.finditer(r'(?m)^[ \t]*(?:pub(?:\([a-z]+\))?\s+)?mod\s+\w+\s*\{', msk):
+                _, attrs = X.leading_attrs(src.src, msk, m.start())
+                if not X.attrs_enabled(attrs):
+                    dead.append((m.start(), X.match_close(msk, m.end() - 1)))
+            ranges = _fn_ranges(msk)
+            for m in WRITER_RX.finditer(msk):
+                if any(a <= m.start() <= b for (a, b) in dead):
+                    continue
+                ls = src.src.rfind('\n', 0, m.start()) + 1
+                le = src.src.find('\n', m.start())
+                line = src.src[ls:le].strip()
+                if line in INIT_OK:
+                    continue
+                encl = [(b - a, n) for (n, a, b) in ranges if a <= m.start() <= b]
+                name = min(encl)[1] if encl else '<item>'
+                if (rel, name) in covered:
+                    continue
+                bad.append('%s:%d fn %s: `%s`' % (rel, src.line_of(m.start()), name, line[:80]))
+    return bad
 
 
 def unit(root='/repo'):
@@ -563,5 +644,28 @@ def unit(root='/repo'):
         ]),
         Raw(LEMMAS),
     ]
+    # R24 on every extracted function of this unit (see extract.r24_explicit_else: Verus mis-resolves a BTreeMap entry moved in an
+    # else-less `if`; found when the mutant "release removes but returns an error" verified vacuously)
+    def walk(its):
+        for it in its:
+            if isinstance(it, Group):
+                walk(it.items)
+            elif isinstance(it, Fn):
+                it.rules = tuple(getattr(it, 'rules', ())) + ('R24',)
+    walk(items)
+    covered = set()
+
+    def collect(its):
+        for it in its:
+            if isinstance(it, Group):
+                collect(it.items)
+            elif isinstance(it, Fn) and not it.external_body:
+                covered.add((it.file, it.name))
+    collect(items)
+    bad = writers_scan(root, covered)
+    items.append(Raw('// ---- closed set of writers: generated from a scan of src/passthrough (see writers_scan in vx/units/handles.py)\n'
+                     'proof fn writers_closed() {\n' +
+                     ''.join('    assert(false); // [C15.writers.closed] the handle table / counter is touched outside the functions under contract: %s\n' % b.replace('\n', ' ') for b in bad) +
+                     '}\n'))
     return Unit('handles', items, preludes=['base.rs'], generic_tags={'fd': ['C15']},
                 notes='sequential model of RwLock/Mutex/atomics: &self -> &mut self on mutating functions (logged as SIG)')
